@@ -88,10 +88,12 @@ PROPS = {
         harnesses=[
             dict(run=B + "VerifC13Partitions", quick=dict(ops=2, keys=1, val9=0, borders=1), thorough=dict(ops=2, keys=2, val9=0, borders=2),
                  covers=["partitioned", "border-on-index-record", "border-inside-versions", "done"]),
+            dict(run=B + "VerifC13Retry", quick=dict(val9=0, borders=1, iterfaults=8), thorough=dict(val9=0, borders=2, iterfaults=12),
+                 covers=["partitioned", "iterator-fault", "done"]),
         ],
-        bounds=dict(quick="2-write histories on 1 key, 2 partitions with the border at Encode(name, rev) for any 64-bit rev (index record, inside versions, beyond), pieces reported in any order; unlimited list, count, streamed range at every readable revision",
+        bounds=dict(quick="2-write histories on 1 key, 2 partitions with the border at Encode(name, rev) for any 64-bit rev (index record, inside versions, beyond), pieces reported in any order; unlimited list, count, streamed range at every readable revision; retry: 3 keys (one updated), 1 border, one transient iterator fault at any of the first 8 iterator steps of an unlimited list / count / streamed range at the latest revision",
                     thorough="2 keys, up to 3 partitions"),
-        outside="borders that are not well-formed internal keys; worker retry after a partial stream",
+        outside="borders that are not well-formed internal keys; a retry after a batch of the failed attempt was already sent (batches hold 300 keys); more than one engine fault per read",
     ),
     "C02": dict(
         harnesses=[
@@ -127,10 +129,12 @@ PROPS = {
                  covers=["unknown-applied", "unknown-lost", "repair-rewrites", "compaction-capped", "done"]),
             dict(run=B + "VerifC09Uncertain", name="C09_repairfault", quick=dict(ops=1, keys=1, val9=0, foreign=0, repairfaults=1, native_tick_ms=1300), thorough=dict(ops=1, keys=1, val9=0, foreign=1, repairfaults=1, native_tick_ms=1300),
                  covers=["unknown-applied", "repair-rewrites", "done"]),
+            dict(run=B + "VerifC09Uncertain", name="C09_overmark", quick=dict(scenario=0, faultpos=2, keys=1, val9=0, foreign=1, repairfaults=0, native_tick_ms=1300),
+                 thorough=dict(scenario=2, faultpos=2, keys=1, val9=0, foreign=1, repairfaults=0, native_tick_ms=1300), covers=["unknown-applied", "unknown-lost", "done"]),
             dict(run=B + "VerifC09CompactRace", name="C09_compactrace", quick=dict(ops=1, keys=1, val9=0, preempt=1), thorough=dict(ops=1, keys=1, val9=0, preempt=2),
                  covers=["unknown-outcome", "compaction-capped", "done"]),
         ],
-        bounds=dict(quick="1-write history; one create/update/delete (symbolic expectation) whose commit is answered 'unknown' in both variants; 1 further symbolic write to the same key; optional Compact(0) while unresolved; the repair loop with symbolic elapsed time; separately a fault of any kind on the repair write itself",
+        bounds=dict(quick="1-write history; one create/update/delete (symbolic expectation) whose commit is answered 'unknown' in both variants; 1 further symbolic write to the same key; optional Compact(0) while unresolved; the repair loop with symbolic elapsed time; separately a fault of any kind on the repair write itself; the same on a key that was created and deleted (deletion mark present), the fault on the request's first or second commit (a create over a deletion mark commits twice); a compaction request racing the writer and the sequencer while the outcome is unknown (<= 1 scheduling deviation)",
                     thorough="2 keys, 2 further writes; repair fault together with a further write"),
         outside="a write that lands after its commit call returned 'unknown'; TiKV's error classification (adapter, C11)",
     ),
@@ -150,8 +154,9 @@ PROPS = {
             dict(run=B + "VerifC17Expiry", quick=dict(ops=1, keys=3, val9=0, between=1), thorough=dict(ops=2, keys=3, val9=0, between=1),
                  covers=["event-expired", "old-event-kept-ttl-not-elapsed", "young-event-kept", "done"]),
             dict(run=B + "VerifC17Race", quick=dict(preempt=2, native_tick_ms=1300), thorough=dict(preempt=3, native_tick_ms=1300), covers=["update-won", "expiry-won", "done"], stress=5),
+            dict(run=B + "VerifC17TwoCompactions", quick=dict(preempt=1, native_tick_ms=1300), thorough=dict(preempt=2, native_tick_ms=1300), covers=["old-event-expired", "done"], stress=5),
         ],
-        bounds=dict(quick="keys of 10..14 fully symbolic bytes (> '$') for the TTL decision; expiry: 1-write history over {an Event key, a key that merely contains /events/, a plain key}, compaction mark, 1 further write, symbolic elapsed time, second compaction on an engine without native TTL; the expiry scan racing an update of the Event (interleaved at the store operations, <= 2 scheduling delays)",
+        bounds=dict(quick="keys of 10..14 fully symbolic bytes (> '$') for the TTL decision; expiry: 1-write history over {an Event key, a key that merely contains /events/, a plain key}, compaction mark, 1 further write, symbolic elapsed time, second compaction on an engine without native TTL; the expiry scan racing an update of the Event (interleaved at the store operations, <= 2 scheduling delays); two compaction requests at the same time after an old mark expired, with a young Event present (<= 1 scheduling deviation, gate at the log line between reading and removing the oldest mark)",
                     thorough="keys of 10..18 bytes; 2-write histories"),
         outside="engine-native TTL after updates (memkv AfterFunc, Badger entry TTL); faults during expiry; more than one compaction mark",
     ),
